@@ -117,13 +117,14 @@ class Ctx:
         self.notes.append(text)
 
     def finish_vacuity(self):
+        """Fewer instances than were confirmed by hand on the pinned tree: the rule did not see (all of) the code it
+        is about.  That is never a pass and never a violation - the constructs exist (a vanished class / function
+        raises AnalysisError where it is looked up) but were written in a form the rule cannot analyse: UNDECIDED,
+        printed and recorded, exit code unchanged."""
         for what, minimum in self.min_counts.items():
             got = self.counts.get(what, 0)
             if got < minimum:
-                raise AnalysisError(
-                    f"instance count below confirmed minimum: {what}: {got} < {minimum} "
-                    "(an anchor the rule depends on has vanished or changed shape)"
-                )
+                self.undecided("vacuity", what, f"only {got} of at least {minimum} confirmed instances could be analysed (code reshaped into a form the rule does not recognise)", f">= {minimum}")
 
 
 # --------------------------------------------------------------------------- known findings
